@@ -267,6 +267,64 @@ def run(chk, prog):
             face_rules += 1
             chk.require(okk, "T3", "the cell index steps +1 for direction > 0 and -1 otherwise", where(x, fn),
                         "index step is %s" % C.pretty(r), function=fn["full"], construct="index step")
+    # ties: EVERY axis whose wall distance equals the minimum is stepped (a packet leaving exactly through an edge or a
+    # corner must be classified as such): each index step sits under `l[a] == lmin` for its own axis a, and the three axes
+    # are all covered (a loop over 0..2 or three statements)
+    def with_stack(st, stack):
+        yield st, stack
+        k2 = st.get("k")
+        if k2 == "Block":
+            for c2 in st.get("s", []):
+                yield from with_stack(c2, stack)
+        elif k2 == "If":
+            for key2 in ("th", "el"):
+                if st.get(key2) is not None:
+                    yield from with_stack(st[key2], stack + [(st, key2)])
+        elif k2 in ("For", "While", "Do"):
+            if st.get("body") is not None:
+                yield from with_stack(st["body"], stack + [(st, "body")])
+    steps = []
+    for x, stack in with_stack(body, []):
+        if x.get("k") == "Bin" and x["op"] == "+=" and axis_subscripts(x["a"], {"three_index"}):
+            steps.append((x, stack))
+    covered = set()
+    tie_ok = bool(steps)
+    tie_detail = "no index step found"
+    for x, stack in steps:
+        sub = C.strip_casts(C.strip_casts(x["a"]).get("i") or (C.strip_casts(x["a"]).get("a") or [None])[0])
+        guard = [st for st, arm in stack if st.get("k") == "If" and arm == "th"]
+        g_ok = False
+        for st in guard:
+            cnd = C.strip_casts(st["c"])
+            if cnd.get("k") == "Bin" and cnd["op"] == "==":
+                sides = [C.strip_casts(cnd["a"]), C.strip_casts(cnd["b"])]
+                for a1, b1 in (sides, sides[::-1]):
+                    isub = C.strip_casts(a1.get("i")) if a1.get("k") == "Idx" else None
+                    if isub is not None and C.ref_key(a1.get("a")) == ("local", decls["l"]["id"], "l") if "l" in decls else False:
+                        if C.pretty(isub) == C.pretty(sub) and C.ref_key(b1) == ("local", decls["lmin"]["id"], "lmin"):
+                            g_ok = True
+        if not g_ok:
+            tie_ok = False
+            tie_detail = "the index step at line %s is not guarded by `l[a] == lmin` for its own axis" % x.get("l")
+        ci = C.const_int(sub) if sub is not None else None
+        if ci is not None:
+            covered.add(ci)
+        else:
+            for st, arm in stack:
+                if st.get("k") == "For" and st.get("init") and st["init"].get("k") == "Decl" and \
+                        C.ref_key(sub) == ("local", st["init"]["d"][0]["id"], st["init"]["d"][0]["n"]):
+                    c0 = C.const_int(st["init"]["d"][0].get("init"))
+                    cc = C.strip_casts(st.get("c"))
+                    c1 = C.const_int(cc["b"]) if cc is not None and cc.get("k") == "Bin" and cc["op"] == "<" else None
+                    if c0 == 0 and c1 == 3:
+                        covered |= {0, 1, 2}
+    if tie_ok and covered != {0, 1, 2}:
+        tie_ok = False
+        tie_detail = "index steps cover the axes %s only: a tie between two wall distances moves the packet along one axis " \
+                     "and an exit through an edge or corner is reported as a face" % sorted(covered)
+    n3 += 1
+    chk.require(tie_ok, "T3", "every axis whose wall distance equals the minimum is stepped (edge and corner crossings)",
+                where(steps[0][0], fn) if steps else where(fn), tie_detail, function=fn["full"], construct="tie handling")
     # surplus correction: after it, the optical depth used equals the target
     td0, tau, tt, lmin = S("tau_done0"), S("tau"), S("tau_target"), S("lmin")
     corr_ifs = [s for s in ifs if C.strip_casts(s["c"]).get("k") == "Bin" and C.strip_casts(s["c"])["op"] == ">=" and
